@@ -13,4 +13,5 @@ import SwcVerif.Model.AlgoRunMst
 import SwcVerif.Model.AlgoRunParse
 import SwcVerif.Model.AlgoRunCut
 import SwcVerif.Model.AlgoRunRepair
+import SwcVerif.Model.AlgoRunAsc
 /-! all runners of generated definitions (imported by the root module only; the driver imports them one by one) -/
